@@ -87,13 +87,20 @@ VF_MAIN
   st.at.integer = (int)in_at; st.remM = (int)in_remM;
   st.block_len = block_len;
   st.input_size = (VF_DFTLEN - (int)in_at + VF_L - 1) / VF_L;
+#ifdef VF_BIGOCC      /* a very full input FIFO: what an interpolating poly-phase stage in front delivers in ONE call at extreme up-sampling ratios
+                       * (1 + 8192 * out_in_ratio samples).  Only the first block may be touched: the harness buffer holds just that. */
+  VF_ASSUME(in_occ >= IN_CAP && in_occ < (1u << 26) && in_oocc <= 4);
+  st.fifo.data = (char *)inmem; st.fifo.item_size = sizeof(rl_t);
+  st.fifo.begin = 0; st.fifo.end = (size_t)in_occ * sizeof(rl_t); st.fifo.allocation = st.fifo.end;
+#else
   VF_ASSUME(in_occ <= IN_CAP && in_oocc <= 4);
   st.fifo.data = (char *)inmem; st.fifo.allocation = IN_CAP * sizeof(rl_t); st.fifo.item_size = sizeof(rl_t);
   st.fifo.begin = (IN_CAP - in_occ) * sizeof(rl_t); st.fifo.end = IN_CAP * sizeof(rl_t);       /* valid region ends at the allocation edge: an over-read is a pointer-check failure */
+#endif
   out.data = (char *)outmem; out.allocation = (VF_DFTLEN + 8) * sizeof(rl_t); out.item_size = sizeof(rl_t);
   out.begin = 0; out.end = in_oocc * sizeof(rl_t);
   num_in = (int)in_occ;
-  ready = (int)in_at + VF_L * num_in >= VF_DFTLEN;
+  ready = (long)in_at + (long)VF_L * num_in >= VF_DFTLEN;
 
   dft_stage_fn(&st, &out);
 
